@@ -9,7 +9,10 @@ int main(int argc, char** argv) {
   long nvals = 0, nnonfinite = 0, ncases = 0;
   for (auto& c : cases) {
     int order = (int)c.geti("order", 0);
-    GaussianShell A = make_shell(c.shells[0]), B = make_shell(c.shells[1]); ECP U = make_ecp(c.ecps[0]);
+    GaussianShell A = make_shell(c.shells[0]), B = make_shell(c.shells[1]); ECP U0 = make_ecp(c.ecps[0]);
+    // via_copy: the ECP is used the way the high-level interfaces use it: a copy stored in an ECPBasis (copy constructor, vector storage)
+    ECPBasis basis; if (c.geti("via_copy", 0) == 1) basis.addECP(U0, 0);
+    ECP& U = c.geti("via_copy", 0) == 1 ? basis.getECP(0) : U0;
     ECPIntegral eng(std::max(A.am(), B.am()), U.getL(), order);
     auto scan = [&](const TwoIndex<double>& m, const char* what) {
       for (double v : m.data) { nvals++; if (!std::isfinite(v)) { nnonfinite++; std::fprintf(f, "NONFINITE %s %s\n", c.id.c_str(), what); return; } } };
